@@ -1,6 +1,7 @@
 (* C05/Property.v — property theorems only. *)
-From Coq Require Import ZArith Bool List.
-From Verif Require Import C05.Model C05.Spec C05.Proofs.
+From Coq Require Import ZArith Bool List String.
+From Verif Require Import Base.Str Base.Py C05.Model C05.Spec C05.Proofs C05.Source.
+From VerifGen Require Import C05Src.
 Open Scope Z_scope.
 
 (* C05: for every placement of the six timestamps, every skew setting and every clock value after
@@ -18,3 +19,24 @@ Theorem c05_too_old : forall x s,
   cnooa (t x) = Some s -> now x > fst s + timeslack (atd x) -> accept x = Reject.
 Proof. exact too_old_rejected. Qed.
 Print Assumptions c05_too_old.
+
+(* tie to the source TEXT: validate.validate_on_or_after / validate_before as translated from /repo's
+   current source on this run (coq/gen/C05Src.v, harness/py2coq.py) compute the model's functions, for
+   every clock value, skew and bound; the clock and the timestamp parser are parameters *)
+Theorem c05_source_validate_on_or_after :
+  forall (text_of : stamp -> String.string) (to_secs : pyval -> pyval),
+  (forall s, is_empty (text_of s) = false) -> (forall s, to_secs (PStr (text_of s)) = PInt (str_to_time s)) ->
+  forall now slack b,
+    src_validate_on_or_after (PInt now) to_secs (enc_stamp text_of b) (PInt slack)
+    = enc_voa b (validate_on_or_after now slack b).
+Proof. exact src_validate_on_or_after_is_model. Qed.
+Print Assumptions c05_source_validate_on_or_after.
+
+Theorem c05_source_validate_before :
+  forall (text_of : stamp -> String.string) (to_secs : pyval -> pyval),
+  (forall s, is_empty (text_of s) = false) -> (forall s, to_secs (PStr (text_of s)) = PInt (str_to_time s)) ->
+  forall now slack b,
+    src_validate_before (PInt now) to_secs (enc_stamp text_of b) (PInt slack)
+    = if validate_before now slack b then PBool true else PExc "ToEarly"%string.
+Proof. exact src_validate_before_is_model. Qed.
+Print Assumptions c05_source_validate_before.
